@@ -27,6 +27,15 @@ func (w *World) lookupFn(ct *Contract) *ssa.Function {
 		return nil
 	}
 	nm := strings.TrimPrefix(ct.Key, ct.PkgPath+".")
+	if i := strings.LastIndex(nm, "$"); i > 0 {
+		ord := 0
+		fmt.Sscanf(nm[i+1:], "%d", &ord)
+		parent := w.lookupFn(&Contract{Key: ct.PkgPath + "." + nm[:i], PkgPath: ct.PkgPath})
+		if parent == nil || ord < 1 || ord > len(parent.AnonFuncs) {
+			return nil
+		}
+		return parent.AnonFuncs[ord-1]
+	}
 	if !strings.HasPrefix(nm, "(") {
 		return pk.SSA.Func(nm)
 	}
@@ -90,6 +99,32 @@ func VerifyFunc(w *World, cs *ContractSet, ct *Contract) *FuncResult {
 		e.assume(st, e.wellTypedDeep(st, p.Type(), v))
 		args = append(args, v)
 	}
+	// closures: every captured variable is a cell with an arbitrary well-typed initial value
+	var bindings []Value
+	capCell := map[string]*Ptr{}
+	for _, fv := range fn.FreeVars {
+		et := fv.Type().(*types.Pointer).Elem()
+		c := e.newCell(fv.Name(), et)
+		v := e.smt.fresh("cap."+fv.Name(), e.ti.sortOf(et))
+		e.assume(st, e.wellTypedDeep(st, et, v))
+		st.cells[c] = v
+		p := &Ptr{Kind: pCell, Cell: c, Root: et, Type: et}
+		bindings = append(bindings, p)
+		capCell[fv.Name()] = p
+	}
+	// clause arguments: captured variables (current values) first, then the parameters
+	clauseArgs := func(s *State) []Value {
+		var out []Value
+		for _, n := range ct.Captured {
+			if p, ok := capCell[n]; ok {
+				out = append(out, e.load(s, p))
+			} else {
+				e.unsupported("closure contract names captured variable %s which the closure does not capture", n)
+				out = append(out, tInt(0))
+			}
+		}
+		return append(out, args...)
+	}
 	// receivers of methods under verification are non-nil (a nil receiver panics at the first field access
 	// in every method in scope; callers are checked against this as an implicit precondition)
 	if fn.Signature.Recv() != nil && len(args) > 0 {
@@ -101,7 +136,7 @@ func VerifyFunc(w *World, cs *ContractSet, ct *Contract) *FuncResult {
 		if cl.GenFn == "" {
 			continue
 		}
-		g, ok := e.evalSpec(st, ct.PkgPath, cl.GenFn, args, st)
+		g, ok := e.evalSpec(st, ct.PkgPath, cl.GenFn, clauseArgs(st), st)
 		if ok {
 			e.assume(st, g)
 		}
@@ -111,11 +146,11 @@ func VerifyFunc(w *World, cs *ContractSet, ct *Contract) *FuncResult {
 	}
 	entry := st.clone()
 	e.entry = entry
-	e.topArgs = args
+	e.topArgs = clauseArgs(st)
 	e.probe(st, "vacuity.pre", "entry")
-	mods, star := e.collectMods(st, ct, args)
+	mods, star := e.collectMods(st, ct, clauseArgs(st))
 	e.topMods, e.topStar = mods, star || ct.Kind == "lemma"
-	rets, out := e.run(fn, args, nil, st, ct)
+	rets, out := e.run(fn, args, bindings, st, ct)
 	if out != nil {
 		// postconditions are checked per return path (smaller, branch-specific VCs); the merged exit
 		// state is used for the frame check
@@ -124,7 +159,7 @@ func VerifyFunc(w *World, cs *ContractSet, ct *Contract) *FuncResult {
 			trs = []retInfo{{out, rets}}
 		}
 		for ri, tr := range trs {
-			all := append(append([]Value{}, args...), tr.vals...)
+			all := append(append([]Value{}, clauseArgs(tr.st)...), tr.vals...)
 			for i, cl := range ct.Ensures {
 				if cl.GenFn == "" {
 					continue
